@@ -12,15 +12,15 @@ import (
 
 // Event is one JSON line written by a shard process and read by the driver.
 type Event struct {
-	T        string          `json:"t"` // begin | end | viol | sample | inconclusive | note
-	I        int             `json:"i"`
-	Desc     []string        `json:"d,omitempty"`  // descriptors of distinct non-trivial cases seen
-	Evals    int64           `json:"ev,omitempty"` // evaluations performed by this case
-	Distinct int64           `json:"dn,omitempty"` // distinct non-trivial cases counted by construction (disjoint partition)
+	T        string           `json:"t"` // begin | end | viol | sample | inconclusive | note
+	I        int              `json:"i"`
+	Desc     []string         `json:"d,omitempty"`  // descriptors of distinct non-trivial cases seen
+	Evals    int64            `json:"ev,omitempty"` // evaluations performed by this case
+	Distinct int64            `json:"dn,omitempty"` // distinct non-trivial cases counted by construction (disjoint partition)
 	Counters map[string]int64 `json:"c,omitempty"`
-	Key      string          `json:"k,omitempty"`
-	Witness  json.RawMessage `json:"w,omitempty"`
-	Reason   string          `json:"r,omitempty"`
+	Key      string           `json:"k,omitempty"`
+	Witness  json.RawMessage  `json:"w,omitempty"`
+	Reason   string           `json:"r,omitempty"`
 }
 
 // Ctx is handed to a property's Run function for one case.
@@ -140,9 +140,17 @@ func (c *Ctx) Violation(key string, witness any) {
 func (c *Ctx) Violations() int { c.mu.Lock(); defer c.mu.Unlock(); return c.viols }
 
 // Inconclusive records that this case could not be decided (never folded into held/violated).
-func (c *Ctx) Inconclusive(reason string) { c.mu.Lock(); c.emit(Event{T: "inconclusive", Reason: reason}); c.mu.Unlock() }
+func (c *Ctx) Inconclusive(reason string) {
+	c.mu.Lock()
+	c.emit(Event{T: "inconclusive", Reason: reason})
+	c.mu.Unlock()
+}
 
-func (c *Ctx) Note(reason string) { c.mu.Lock(); c.emit(Event{T: "note", Reason: reason}); c.mu.Unlock() }
+func (c *Ctx) Note(reason string) {
+	c.mu.Lock()
+	c.emit(Event{T: "note", Reason: reason})
+	c.mu.Unlock()
+}
 
 // Guard runs f and converts a panic into (site, message, true).
 func Guard(f func()) (site, msg string, panicked bool) {
